@@ -329,7 +329,43 @@ func (fr *Frame) doCall(in ssa.Instruction, com *ssa.CallCommon, st *State, isGo
 		}
 		fr.events[fmt.Sprintf("%s#%d", key, si.ord)] = ev
 	}
-	// sink obligations of the function under verification
+	// sink obligations of the function under verification; a call site inside a helper that has no contract of its own and
+	// is executed in place (extract-method refactoring) is also a site of the nearest enclosing function under contract,
+	// under the helper's own ordinal
+	owner := fr
+	for owner != nil && owner.con == nil && owner.parent != nil {
+		owner = owner.parent
+	}
+	if owner != nil && owner != fr && owner.con != nil && hasSite {
+		for i, cl := range owner.con.Sinks {
+			if !c.v.keyMatches(key, cl.Callee) || (cl.Ord != 0 && cl.Ord != si.ord) {
+				continue
+			}
+			// only when the function under contract has no such site of its own (the call was moved into the helper);
+			// otherwise the clause speaks about the function's own site and the helper's is unrelated
+			ownerHas := false
+			for _, osi := range owner.sites {
+				if c.v.keyMatches(osi.key, cl.Callee) && (cl.Ord == 0 || cl.Ord == osi.ord) {
+					ownerHas = true
+					break
+				}
+			}
+			if ownerHas {
+				continue
+			}
+			cl.matched = true
+			ec := owner.evalCtx(st, owner.entry, pos)
+			ec.thisCall = ev
+			t, err := ec.evalClause(cl.Expr)
+			if err != nil {
+				c.stale = append(c.stale, fmt.Sprintf("%s:%d: %v", cl.File, cl.Line, err))
+				continue
+			}
+			lab := clauseLabel(cl, i)
+			c.pendingParts, c.pendingGuard = ec.clauseParts(cl.Expr), fr.reach
+			fr.oblige("sink", fmt.Sprintf("%s/%s@%s", shortKey(key), lab, sanitize(fr.fn.Name())), implies(fr.reach, t), pos, "before calling "+shortKey(key)+" in helper "+fr.fn.Name()+": "+oneLine(cl.Text))
+		}
+	}
 	if fr.con != nil && hasSite {
 		for i, cl := range fr.con.Sinks {
 			if !c.v.keyMatches(key, cl.Callee) || (cl.Ord != 0 && cl.Ord != si.ord) {
